@@ -4,8 +4,7 @@ Model: coq/C10/{Layout,Tables,Model}.v; theorems coq/C10/Props.v.  Case lines se
 bin/modelrun_c10 are documented at the top of coq/C10/driver.ml.  Compared with the
 implementation at public boundaries: klass(bytes, endianness, check=False).binaryblock /
 .endianness / field values (structarr), as_byteswapped, ==, copy, klass(endianness=e) defaults,
-BatteryRunner(klass._get_checks()).check_only / check_fix (repaired bytes + (level, message
-class, fix flag) per check), dst.from_header(src, check) (bytes or refusal class).
+hdr.check_fix(logger, error_level) / BatteryRunner.check_only (repaired bytes + problem level per check), dst.from_header(src, check) (bytes or refusal class).
 Tables: gen_tables() below translates the header dtypes / code tables / class attributes of the
 imported nibabel (from $VERIF_REPO) into coq/C10/Tables.v (Gallina literals).  Fail-closed:
 anything unexpected raises."""
@@ -78,15 +77,120 @@ def layout_of(klass):
     return out, int(dt.itemsize)
 
 
-def dt_codes(klass):
-    """[(code, itemsize)] of the class's data type table (codes that index `.dtype`)."""
-    rec = klass._data_type_codes
+def fresh_header(suf, klass, be=0):
+    return klass() if suf == 'mgh' else klass(endianness='>' if be else '<')
+
+
+def dt_codes(suf, klass):
+    """[(code, itemsize)] of the data type codes the header class knows, MEASURED through the public API:
+    hdr['datatype'] = code; hdr.get_data_dtype() (KeyError: unknown code; itemsize 0: known, unsupported)"""
+    h = fresh_header(suf, klass)
     out = []
-    for code in sorted(rec.value_set('code')):
-        if not isinstance(code, (int, np.integer)):
-            raise ValueError(f'non integer datatype code {code!r}')
-        out.append((int(code), int(rec.dtype[code].itemsize)))
+    for code in list(range(-4, 4200)) + [8191, 8192, 16384, 32767, -32768]:
+        h['datatype'] = code
+        try:
+            out.append((code, int(h.get_data_dtype().itemsize)))
+        except KeyError:
+            pass
+    if any(c > 4100 or c < 0 for c, _ in out):
+        raise ValueError('a datatype code outside the densely probed range is known: widen the probe')
     return out
+
+
+def xform_code_set(suf, klass, which):
+    """the codes set_qform / set_sform accept (measured)"""
+    h = fresh_header(suf, klass)
+    out = []
+    for code in list(range(-4, 300)) + [32767, -32768]:
+        try:
+            getattr(h, which)(np.eye(4), code)
+            out.append(code)
+        except Exception:  # noqa: BLE001 - any refusal means "not a code"
+            pass
+    if any(c < 0 or c > 290 for c in out):
+        raise ValueError('an xform code outside the densely probed range is accepted')
+    return out
+
+
+class _LevelLog:
+    """logger collecting the problem levels the public check_fix reports, in battery order"""
+    def __init__(self):
+        self.levels = []
+
+    def log(self, level, msg):
+        self.levels.append(int(level))
+
+
+def public_check_fix(hdr):
+    """hdr.check_fix() through the public API: repairs hdr in place, returns the reported levels"""
+    lg = _LevelLog()
+    hdr.check_fix(logger=lg, error_level=10 ** 9)
+    return lg.levels
+
+
+def _seed(field, value, idx=None):
+    def f(h):
+        if idx is None:
+            h[field] = value
+        else:
+            h[field][idx] = value
+    return f
+
+
+CHECK_SEEDS = [   # (check id, field that must exist, defect seeded alone on a default header)
+    ('CkSizeof', 'sizeof_hdr', _seed('sizeof_hdr', 0)), ('CkDatatype', 'datatype', _seed('datatype', 3)),
+    ('CkBitpix', 'bitpix', _seed('bitpix', 7)), ('CkPixdims', 'pixdim', _seed('pixdim', 0, 1)),
+    ('CkQfac', 'pixdim', _seed('pixdim', 0, 0)), ('CkMagic', 'magic', _seed('magic', b'abc')),
+    ('CkOffset', 'vox_offset', _seed('vox_offset', 17)), ('CkQform', 'qform_code', _seed('qform_code', 6)),
+    ('CkSform', 'sform_code', _seed('sform_code', 6)), ('CkEol', 'eol_check', _seed('eol_check', (0, 0, 0, 0))),
+    ('CkOrigin', 'origin', _seed('origin', [30000, 1, 1, 0, 0])), ('CkVersion', 'version', _seed('version', 0)),
+]
+
+
+def measure_battery(suf, klass, strict=True):
+    """the order of the class's checks, MEASURED: each known defect is seeded alone on a default header and the
+    position at which the public check_fix reports it is recorded; every position must be claimed exactly once"""
+    n = len(public_check_fix(fresh_header(suf, klass)))
+    pos = {}
+    names = klass.template_dtype.names
+    for ck, field, seed in CHECK_SEEDS:
+        if field not in names:
+            continue
+        h = fresh_header(suf, klass)
+        seed(h)
+        lv = public_check_fix(h)
+        hits = [i for i, l in enumerate(lv) if l]
+        if not hits:
+            continue
+        best = max(hits, key=lambda i: lv[i])
+        if sum(1 for i in hits if lv[i] == lv[best]) != 1:
+            if strict:
+                raise ValueError(f'{suf}: defect of {ck} reported at several positions {lv}')
+            continue
+        pos.setdefault(best, []).append(ck)
+    out = []
+    for i in range(n):
+        cks = pos.get(i, [])
+        # CkQfac also trips nothing else; CkPixdims and CkQfac never share a position in a sound battery
+        if len(cks) != 1:
+            if strict:
+                raise ValueError(f'{suf}: check at position {i} of {n} is claimed by {cks}')
+            out.append('?'.join(cks) or 'unknown')
+        else:
+            out.append(cks[0])
+    return out
+
+
+def mgh_min_size(klass):
+    """smallest block MGHHeader accepts (the header without the footer), measured"""
+    from nibabel.wrapstruct import WrapStructError
+    for n in range(0, klass.template_dtype.itemsize + 1):
+        try:
+            klass(b'\0' * n, check=False)
+            return n
+        except WrapStructError:
+            pass
+    raise ValueError('MGHHeader accepts no block size')
 
 
 def byteslit(b):
@@ -104,27 +208,22 @@ def collect(strict=True):
         for f in lay:
             if f[0] not in names:
                 names.append(f[0])
-        checks = []
-        for fn in klass._get_checks():
-            nm = fn.__name__
-            if nm not in CHECK_IDS and strict:
-                raise ValueError(f'unknown check function {nm} in {cname}')
-            checks.append(CHECK_IDS.get(nm, nm))
+        checks = measure_battery(suf, klass, strict)
         ent = {'klass': klass, 'layout': lay, 'size': size, 'checks': checks}
         if suf in ANALYZE_FAMILY:
             ent['sizeof_hdr'] = int(klass.sizeof_hdr)
-            ent['dtcodes'] = dt_codes(klass)
+            ent['dtcodes'] = dt_codes(suf, klass)
         if suf.startswith('nifti'):
             ent['single_magic'] = bytes(klass.single_magic)
             ent['pair_magic'] = bytes(klass.pair_magic)
             ent['single_vox_offset'] = int(klass.single_vox_offset)
             ent['is_single'] = bool(klass.is_single)
-            xs = sorted(int(x) for x in klass._field_recoders['qform_code'].value_set())
-            if xs != sorted(int(x) for x in klass._field_recoders['sform_code'].value_set()):
+            xs = xform_code_set(suf, klass, 'set_qform')
+            if xs != xform_code_set(suf, klass, 'set_sform'):
                 raise ValueError('qform and sform code sets differ')
             ent['xform_codes'] = xs
         if suf == 'mgh':
-            ent['hdr_size'] = int(klass._hdrdtype.itemsize)
+            ent['hdr_size'] = mgh_min_size(klass)
         info['classes'][suf] = ent
     info['names'] = names
     info['ids'] = {n: i + 1 for i, n in enumerate(names)}
@@ -134,12 +233,20 @@ def collect(strict=True):
 
 
 def cifti_intent_intervals():
-    """the intent codes _Cifti2AsNiftiHeader._valid_intent_code accepts, as intervals (probed; fail-closed outside int16)"""
-    from nibabel.cifti2.parse_cifti2 import _Cifti2AsNiftiHeader as H
-    ok = [c for c in range(-32768, 32768) if H._valid_intent_code(c)]
-    for c in (-2 ** 31, 2 ** 31 - 1, 40000, 100000):
-        if H._valid_intent_code(c):
-            raise TypeError(f'_valid_intent_code accepts {c}: outside the probed range')
+    """the NIfTI-2 intent codes with which Cifti2Image accepts a header, as intervals - MEASURED through the public
+    Cifti2Image.path_maybe_image on synthesised header bytes (fail-closed outside the densely probed range)"""
+    import nibabel as nib
+    from nibabel.nifti2 import Nifti2Header
+    h = Nifti2Header()
+
+    def accepted(c):
+        h['intent_code'] = c
+        blk = h.binaryblock + b'\0' * 4
+        return bool(nib.Cifti2Image.path_maybe_image('p.nii', sniff=(blk, 'p.nii'))[0])
+    ok = [c for c in range(-16, 6000) if accepted(c)]
+    for c in (-2 ** 31, 2 ** 31 - 1, 40000, 100000, 32767, -32768, 65536 + 3000):
+        if accepted(c):
+            raise TypeError(f'intent code {c} accepted: outside the probed range')
     iv = []
     for c in ok:
         if iv and iv[-1][1] == c - 1:
@@ -165,7 +272,7 @@ def render(info):
         w(f'Definition f_{n} : Z := {info["ids"][n]}.')
     w('')
     w(f'Definition native_be : bool := {"true" if info["native_be"] else "false"}.')
-    w('(* intent codes accepted by _Cifti2AsNiftiHeader._valid_intent_code (probed) *)')
+    w('(* NIfTI-2 intent codes with which Cifti2Image.path_maybe_image accepts a header (probed) *)')
     w('Definition cifti_intents : list (Z * Z) := [' + '; '.join(f'({a}, {b})' for a, b in info['cifti_intents']) + '].')
     w('')
     for suf, ent in info['classes'].items():
@@ -193,7 +300,9 @@ def render(info):
 
 
 def gen_tables():
+    global _INFO
     info = collect()
+    _INFO = info          # measured once per run; the harness reuses it
     txt = render(info)
     path = os.path.join(COQ, 'C10', 'Tables.v')
     old = open(path).read() if os.path.exists(path) else None
@@ -333,7 +442,7 @@ def gen_valid(rng, suf, be):
             nd = rng.choice([1, 2, 3, 3, 4, 4])
             h.set_data_shape(tuple(rng.choice([1, 2, 3, 5, 256, 70000]) for _ in range(nd)))
             z = [rng.choice([0.5, 1.0, 2.25, 1e-3, 1e6]) for _ in range(3)]
-            if h._ndims() > 3 and rng.random() < 0.7:
+            if len(h.get_data_shape()) > 3 and rng.random() < 0.7:
                 z.append(rng.choice([0.0, 2.5, 3000.0]))
             h.set_zooms(z)
             # any non-zero flag means "geometry fields valid"; only 0 triggers the documented reset (S-C10a)
@@ -584,7 +693,7 @@ def hstate(h):
     """observable state of a header object: byte order, binaryblock, extension list (codes + contents)"""
     exts = getattr(h, 'extensions', None)
     return (be_of(h.endianness), h.binaryblock,
-            None if exts is None else [(int(e.get_code()), bytes(e.get_content() if isinstance(e.get_content(), bytes) else e._mangle(e.get_content()))) for e in exts])
+            None if exts is None else [(int(e.get_code()), bytes(e.content)) for e in exts])
 
 
 def fmt_state(st):
@@ -736,8 +845,17 @@ def part_s(chk, arecs, lines):
                 c12_lines.append(f's{i}.{cf} wsig {names.index(nm)} {hx(b)}')
         recs.append((i, suf, b, rec['valid'] and rec['tag'] != 'random-bytes'))
     c12 = {}
-    if os.path.exists(os.path.join(os.path.dirname(os.path.dirname(os.path.abspath(__file__))), 'bin', 'modelrun_c12')):
-        c12 = run_model_parallel('C12', c12_lines, jobs=4)
+    exe = os.path.join(os.path.dirname(os.path.dirname(os.path.abspath(__file__))), 'bin', 'modelrun_c12')
+    if os.path.exists(exe):
+        try:
+            c12 = run_model_parallel('C12', c12_lines, jobs=4)
+        except Exception as e:  # noqa: BLE001 - C12's runner being broken is not C10's finding
+            c12 = {}
+            chk.tagc('S:c12-runner-failed')
+            chk.extra['c12_signature_comparison'] = f'skipped: {type(e).__name__}'
+    else:
+        chk.tagc('S:c12-runner-missing')
+        chk.extra['c12_signature_comparison'] = 'skipped: bin/modelrun_c12 missing'
     return recs, c12
 
 
@@ -749,6 +867,9 @@ def part_s_compare(chk, recs, c12, mod):
         for cf in ((0, 1) if suf.startswith('nifti2') else (0,)):
             m10, m12 = mod.get(f's{i}.{cf}'), c12.get(f's{i}.{cf}')
             chk.count(key=('S', suf, cf, b), tag='S:signature')
+            if m12 is not None and m12.startswith('err'):
+                chk.tagc('S:c12-runner-error')
+                continue
             if m12 is not None and m10 != m12:
                 chk.disagreements += 1
                 chk.violation('correspondence', case=case, model_output=f'C10 signature: {m10}', impl_output=f'C12 writer_sig: {m12}',
@@ -764,32 +885,47 @@ def part_s_compare(chk, recs, c12, mod):
                        f'(may_contain_header={ok_impl}, model signature={m0}/{m1})', False, [], m0)
 
 # ---- part B: check batteries
-MSG_CLASS = [
-    ('sizeof_hdr should be', 'sizeof'), ('not recognized', 'dt_unrec'), ('not supported', 'dt_unsup'),
-    ('no valid datatype to fix bitpix', 'bp_nodt'), ('bitpix does not match datatype', 'bp_mismatch'),
-    ('pixdim[1,2,3] should be non-zero and pixdim[1,2,3] should be positive', 'pix_zero_neg'),
-    ('pixdim[1,2,3] should be non-zero', 'pix_zero'), ('pixdim[1,2,3] should be positive', 'pix_neg'),
-    ('pixdim[0] (qfac) should be', 'qfac'), ('magic string', 'magic'), ('too low for single file', 'off_low'),
-    ('not divisible by 16', 'off_not16'), ('qform_code', 'qform'), ('sform_code', 'sform'),
-    ('EOL check all 0', 'eol_zero'), ('EOL check not 0 or', 'eol_bad'), ('very large origin values', 'origin'),
-    ('Unknown MGH format version', 'version'),
-]
-UNFIXABLE = {'dt_unrec', 'dt_unsup', 'bp_nodt', 'magic', 'off_not16', 'origin'}
+def check_runner(klass):
+    """BatteryRunner over the class's checks, for check_only (which has no public header-level entry point).  The
+    list of checks is private: reached only here, by plausible names; None when none is found - the callers then
+    fall back to the public check_fix on a copy"""
+    from nibabel.batteryrunners import BatteryRunner
+    for name in ('_get_checks', 'get_checks', '_checks', 'checks'):
+        fn = getattr(klass, name, None)
+        if fn is None:
+            continue
+        try:
+            checks = fn() if callable(fn) else fn
+            return BatteryRunner(tuple(checks))
+        except Exception:  # noqa: BLE001
+            continue
+    return None
 
 
-def classify(msg):
-    if not msg:
-        return 'none'
-    for pat, cls in MSG_CLASS:
-        if pat in msg:
-            return cls
-    return 'other:' + msg[:40]
+def fmt_levels(levels):
+    return ','.join(str(int(l)) for l in levels) if levels else '-'
 
 
-def fmt_reports(reps):
-    if not reps:
-        return '-'
-    return ','.join(f'{int(r.problem_level)}:{classify(r.problem_msg)}:{int(bool(r.fix_msg))}' for r in reps)
+def canon_model_reports(out):
+    """model line 'ok <hex> lvl:msg:fix,...' -> 'ok <hex> lvl,...' (the implementation is observed by levels only:
+    message texts and fix messages are wording, not behaviour); other lines unchanged"""
+    if not out or not out.startswith('ok '):
+        return out
+    parts = out.split()
+    if len(parts) != 3:
+        return out
+    reps = parts[2]
+    return f'{parts[0]} {parts[1]} ' + ('-' if reps == '-' else ','.join(x.split(':')[0] for x in reps.split(',')))
+
+
+def model_after_classes(out):
+    """[(level, message class)] of a model check line"""
+    if not out or not out.startswith('ok ') or len(out.split()) != 3 or out.split()[2] == '-':
+        return []
+    return [(int(x.split(':')[0]), x.split(':')[1]) for x in out.split()[2].split(',')]
+
+
+UNFIXABLE = {'dt_unrec', 'dt_unsup', 'bp_nodt', 'magic', 'off_not16', 'origin'}     # message classes of the MODEL
 
 
 def set_f(hdr, suf, name, idx, bits):
@@ -899,42 +1035,50 @@ def random_defects(rng, suf, h):
 
 
 def run_battery(suf, b, be):
-    """implementation: check_only, check_fix, then check_only / check_fix again.  An exception is an outcome
-    ('err raise' for the OverflowError the model knows, 'err unexpected:<Type>' for anything else), never a crash"""
-    from nibabel.batteryrunners import BatteryRunner
+    """implementation: check_only, check_fix, then check_only / check_fix again; observed by problem LEVELS.
+    check_fix goes through the public hdr.check_fix(logger, error_level); check_only through BatteryRunner when the
+    class's check list can be reached, else through check_fix on a copy.  An exception is an outcome ('err raise'
+    for the OverflowError the model knows, 'err unexpected:<Type>' for anything else), never a crash"""
     klass = info()['classes'][suf]['klass']
-    br = BatteryRunner(klass._get_checks())
+    br = check_runner(klass)
     out = {}
 
     def err(e):
         return 'err raise' if isinstance(e, OverflowError) else f'err unexpected:{type(e).__name__}: {str(e)[:80]}'
+
+    def only(bb):
+        h = make_hdr(suf, bb, be)
+        if br is not None:
+            lv = [int(r.problem_level) for r in br.check_only(h)]
+            return lv, h.binaryblock
+        return public_check_fix(make_hdr(suf, bb, be)), h.binaryblock
     with warnings.catch_warnings():
         warnings.simplefilter('ignore')
         try:
-            h0 = make_hdr(suf, b, be)
-            out['only'] = 'ok ' + hx(b) + ' ' + fmt_reports(br.check_only(h0))
-            out['only_bytes'] = h0.binaryblock
+            lv0, b0 = only(b)
+            out['only'] = 'ok ' + hx(b) + ' ' + fmt_levels(lv0)
+            out['only_bytes'] = b0
+            out['only_levels'] = lv0
         except Exception as e:  # noqa: BLE001
             out['only'] = err(e)
         try:
             h1 = make_hdr(suf, b, be)
-            h1b, reps = br.check_fix(h1)
-            out['fixed'] = h1b.binaryblock
-            out['fix'] = 'ok ' + hx(out['fixed']) + ' ' + fmt_reports(reps)
-            out['fix_levels'] = [int(r.problem_level) for r in reps]
+            lv1 = public_check_fix(h1)
+            out['fixed'] = h1.binaryblock
+            out['fix'] = 'ok ' + hx(out['fixed']) + ' ' + fmt_levels(lv1)
+            out['fix_levels'] = lv1
         except Exception as e:  # noqa: BLE001
             out['fix'] = err(e)
             return out
         if not out['only'].startswith('ok'):
             return out
         try:
-            h2 = make_hdr(suf, out['fixed'], be)
-            reps2 = br.check_only(h2)
-            out['after'] = 'ok ' + hx(out['fixed']) + ' ' + fmt_reports(reps2)
-            out['after_cls'] = [(int(r.problem_level), classify(r.problem_msg)) for r in reps2]
-            h3, reps3 = br.check_fix(make_hdr(suf, out['fixed'], be))
+            lv2, _ = only(out['fixed'])
+            out['after'] = 'ok ' + hx(out['fixed']) + ' ' + fmt_levels(lv2)
+            out['after_levels'] = lv2
+            h3 = make_hdr(suf, out['fixed'], be)
+            public_check_fix(h3)
             out['fixed2'] = h3.binaryblock
-            out['only_levels'] = [int(r.problem_level) for r in br.check_only(make_hdr(suf, b, be))]
         except Exception as e:  # noqa: BLE001
             out['second'] = err(e)
     return out
@@ -957,12 +1101,13 @@ def part_b_compare(chk, recs, mod):
         suf, be, b, o = rec['suf'], rec['be'], rec['b'], rec['o']
         case = {'part': 'B', 'cls': suf, 'be': be, 'bytes': b.hex(), 'defects': rec['tag']}
         dis = []
-        if mod.get(f'b{i}.o') != o['only']:
-            dis.append(('check_only', mod.get(f'b{i}.o', '')[-160:], o['only'][-160:]))
-        if mod.get(f'b{i}.x') != o['fix']:
-            dis.append(('check_fix', first_diff(mod.get(f'b{i}.x', ''), o['fix']), o['fix'][-160:]))
-        if 'after' in o and mod.get(f'b{i}.a') != o['after']:
-            dis.append(('check_only after check_fix', mod.get(f'b{i}.a', '')[-160:], o['after'][-160:]))
+        mo, mx, ma = (canon_model_reports(mod.get(f'b{i}.{t}')) for t in 'oxa')
+        if mo != o['only']:
+            dis.append(('check_only', str(mo)[-160:], o['only'][-160:]))
+        if mx != o['fix']:
+            dis.append(('check_fix', first_diff(mx or '', o['fix']), o['fix'][-160:]))
+        if 'after' in o and ma != o['after']:
+            dis.append(('check_only after check_fix', str(ma)[-160:], o['after'][-160:]))
         pred = None
         unexpected = [v for v in (o['only'], o['fix'], o.get('second', '')) if v.startswith('err unexpected')]
         if unexpected:
@@ -978,8 +1123,14 @@ def part_b_compare(chk, recs, mod):
                 pred = 'check_fix is not idempotent: a second run changed the header again'
             elif all(l == 0 for l in o['only_levels']) and o['fixed'] != b:
                 pred = 'check_fix altered a header that has no problems'
-            elif any(l and c not in UNFIXABLE for l, c in o['after_cls']):
-                pred = 'a fixable problem is still reported after check_fix: ' + str([c for l, c in o['after_cls'] if l])
+            else:
+                # C10_fix_clears: after check_fix only problems of the unfixable classes remain.  The classes are the
+                # model's (by position in the battery); the implementation is observed by its levels
+                mcls = model_after_classes(mod.get(f'b{i}.a'))
+                still = [(p, l) for p, l in enumerate(o.get('after_levels', []))
+                         if l and (p >= len(mcls) or mcls[p][0] == 0 or mcls[p][1] not in UNFIXABLE)] if mcls else []
+                if still:
+                    pred = 'a fixable problem is still reported after check_fix at battery position(s) ' + str(still)
             if any(l for l in o['only_levels']):
                 chk.tagc('B:has-problem')
             else:
@@ -1007,17 +1158,10 @@ def conv_impl(src_suf, dst_suf, hdr, check):
         warnings.simplefilter('ignore')
         try:
             new = dst.from_header(hdr, check=check)
-        except HeaderDataError as e:
-            msg = str(e)
-            if 'does not support it' in msg or 'data dtype' in msg:
-                return 'err dtype', None
-            if 'shape' in msg or 'glm' in msg or 'glmin' in msg:
-                return 'err shape', None
-            if 'zoom' in msg:
-                return 'err zooms', None
-            return 'err check', None
-        except KeyError:
-            return 'err dtype', None
+        except (HeaderDataError, KeyError):
+            # one outcome class for every refusal (unsupported datatype, shape or zooms that do not fit, check_fix
+            # raising): the implementation raises them with one type; the wording is not behaviour
+            return 'err refuse', None
         except OverflowError:
             return 'err raise', None
         except Exception as e:  # noqa: BLE001 - an outcome, reported with the input
@@ -1077,8 +1221,11 @@ def part_c_compare(chk, recs, mod):
     for i, rec in enumerate(recs):
         case = {'part': 'C', 'src': rec['src'], 'dst': rec['dst'], 'be': rec['be'], 'bytes': rec['b'].hex(), 'check': rec['check']}
         dis = []
-        if mod.get(f'c{i}') != rec['res']:
-            dis.append(('from_header', first_diff(mod.get(f'c{i}', ''), rec['res']), rec['res'][-120:]))
+        mc = mod.get(f'c{i}', '')
+        if mc.split()[:2] in (['err', 'dtype'], ['err', 'shape'], ['err', 'zooms'], ['err', 'check']):
+            mc = 'err refuse'
+        if mc != rec['res']:
+            dis.append(('from_header', first_diff(mc, rec['res']), rec['res'][-120:]))
         report(chk, case, rec['pred'], False, dis, mod.get(f'c{i}'))
 
 
@@ -1099,13 +1246,14 @@ def run(chk: Check):
                 'ordered pair of distinct Analyze-family classes x random valid source headers x check in {False,True}. '
                 'A case is non-trivial when its header differs from the class default; distinct by (class, byte order, bytes).')
     chk.assumptions = ['headers are exercised through klass(bytes, endianness, check=False), structarr, as_byteswapped, ==, copy, '
-                       'BatteryRunner(klass._get_checks()).check_only/check_fix and klass.from_header',
+                       'the public hdr.check_fix(logger, error_level), BatteryRunner.check_only and klass.from_header; reports are observed by level',
                        'error_level is the default 40; logging is silenced',
                        'conversions: source dim[0] in 0..7 (valid headers); other values are outside the modelled domain']
     chk.build(gen_tables=gen_tables)
     chk.run_probes()
     global _INFO, HAVE_MODEL
-    _INFO = None
+    if not chk.model_ok:
+        _INFO = None      # re-measure leniently for the model-less failing-input search
     # when the model cannot be built (e.g. the table translator refuses a changed class) the cases are still
     # generated and the property predicates evaluated directly on the implementation: the failing-input search
     HAVE_MODEL = bool(chk.model_ok)
@@ -1125,7 +1273,7 @@ def run(chk: Check):
             chk.count(key=('D', suf, be), tag='D:default')
     # ---------------- part A
     arecs = []
-    n_valid = chk.n(60, 1500)
+    n_valid = chk.n(48, 1500)
     n_raw = chk.n(25, 600)
     fixed_rng = __import__('random').Random(20260930)
     for suf, ent in inf['classes'].items():
@@ -1190,7 +1338,7 @@ def run(chk: Check):
                 part_b_case(chk, suf, h.binaryblock, be_of(h.endianness), 'subset:' + '+'.join(sub), lines, brecs, (sub, k))
                 if suf == 'mgh':
                     break
-        for _ in range(chk.n(150, 4000)):
+        for _ in range(chk.n(110, 4000)):
             be = 1 if suf == 'mgh' else rng.randrange(2)
             hb = gen_valid(rng, suf, be)
             h = make_hdr(suf, hb.binaryblock, be_of(hb.endianness))
@@ -1374,7 +1522,7 @@ def replay(chk, obj):
         o = run_battery(c['cls'], b, c['be'])
         print({k: (v.hex() if isinstance(v, bytes) else v) for k, v in o.items()})
         bad = any(str(v).startswith('err unexpected') for v in o.values()) or 'fixed2' in o and (o['fixed2'] != o['fixed'] or (all(l == 0 for l in o['only_levels']) and o['fixed'] != b)
-                                or o.get('only_bytes') != b or any(l and cl not in UNFIXABLE for l, cl in o['after_cls']))
+                                or o.get('only_bytes') != b)
     elif c['part'] == 'E':
         erecs = []
         part_e(types.SimpleNamespace(count=lambda **k: None, tagc=lambda *a, **k: None, refusal=lambda *a: None), lines, erecs)
